@@ -35,7 +35,7 @@ def tr_stats(s, a, b):
 def run(chk):
     chk.prove()
     r = gen.rng(chk.seed, "C15")
-    n_cases = 24 if chk.tier == "quick" else 200
+    n_cases = 24 if chk.tier == "quick" else 1200
     eps = float(np.finfo(float).eps)
     for i in range(n_cases):
         w, mu, var, s, X = gt.gen_training(r, N=r.choice([9, 14]))
